@@ -66,6 +66,53 @@ pub fn proj_json(ont: &Ontology) -> Result<Value, String> {
     })
 }
 
+fn query_event(ont: &Ontology, a: u32, b: u32) -> Value {
+    use crate::cmd_sim::{builtin, expected_score, PairArgs, ALGOS};
+    use hpo::similarity::Similarity;
+    use std::collections::BTreeMap;
+    let r = catch(|| {
+        let (ta, tb) = (ont.hpo(a).unwrap(), ont.hpo(b).unwrap());
+        let ids = |g: hpo::term::HpoGroup| -> Vec<u32> { g.iter().map(|x| x.as_u32()).collect() };
+        let common = ids(ta.all_common_ancestor_ids(&tb));
+        let union = ids(ta.union_ancestor_ids(&tb));
+        let dist = ta.distance_to_term(&tb).map(|x| x as i64).unwrap_or(-1);
+        let path: Option<Vec<u32>> = ta.path_to_term(&tb).map(|p| p.iter().map(|x| x.as_u32()).collect());
+        let ov = |x: usize, y: usize| (x as u64, y as u64);
+        let (ga, gb) = (ta.gene_ids(), tb.gene_ids());
+        let (oa, ob) = (ta.omim_disease_ids(), tb.omim_disease_ids());
+        let (ra, rb) = (ta.orpha_disease_ids(), tb.orpha_disease_ids());
+        let args = PairArgs {
+            a,
+            b,
+            common: common.clone(),
+            union: union.clone(),
+            dist,
+            ov: [ov(ga.intersection(gb).count(), ga.union(gb).count()), ov(oa.intersection(ob).count(), oa.union(ob).count()), ov(ra.intersection(rb).count(), ra.union(rb).count())],
+        };
+        let mut ic: BTreeMap<u32, [f64; 3]> = BTreeMap::new();
+        for t in ont.iter() {
+            let i = t.information_content();
+            ic.insert(t.id().as_u32(), [i.gene() as f64, i.omim_disease() as f64, i.orpha_disease() as f64]);
+        }
+        let mut bad: Vec<String> = vec![];
+        for algo in ALGOS {
+            for k in KINDS {
+                let want = expected_score(algo, k, &args, &ic);
+                let got = builtin(algo, k).calculate(&ta, &tb);
+                let rev = builtin(algo, k).calculate(&tb, &ta);
+                if !crate::project::close_f32(got, want, 1e-4, 1e-5) || !(got >= 0.0) || !crate::project::close_f32(rev, got as f64, 1e-5, 1e-6) {
+                    bad.push(format!("{algo}/{}({a},{b}) = {got} (reverse {rev}), formula on the observed arguments gives {want}", k.name()));
+                }
+            }
+        }
+        json!({"e": "Query", "a": a, "b": b, "common": common, "union": union, "dist": dist, "haspath": path.is_some(), "path": path.unwrap_or_default(), "sim_bad": bad})
+    });
+    match r {
+        Ok(v) => v,
+        Err(p) => json!({"e": "QueryPanicked", "a": a, "b": b, "why": p}),
+    }
+}
+
 /// one random run; returns its events
 pub fn one_run(rng: &mut Rng, large: bool) -> Vec<Value> {
     let mut ev: Vec<Value> = vec![];
@@ -176,6 +223,13 @@ pub fn one_run(rng: &mut Rng, large: bool) -> Vec<Value> {
             ev.push(json!({"e": "ProjectionPanicked", "why": p}));
             return ev;
         }
+    }
+    // pair queries on the built ontology: the structural results are validated by TLC (focus C04) against
+    // HpoSetOps / HpoSim; the eight similarity formulas are evaluated here on exactly these observed
+    // arguments and the terms' observed information content
+    for _ in 0..rng.range(2, 5) {
+        let (a, b) = (*rng.pick(&order), *rng.pick(&order));
+        ev.push(query_event(&ont, a, b));
     }
     // sub-ontologies: a root and 1..3 leaves, mostly below the root
     for _ in 0..rng.range(1, 3) {
